@@ -66,9 +66,11 @@ def main():
                 C.log(exe_out[-3000:])
             proof_ok, proof_out = C.lake_build(P.LEAN_TARGETS)
             obligations = discharged = 0
-            details, problems = {}, []
+            closure = set(C.import_closure(P.LEAN_TARGETS))
+            details, problems = {}, [msg for mod, msg in C.TRANSLATOR_PROBLEMS if mod in closure]
             if proof_ok:
-                obligations, discharged, details, problems = C.audit(pid)
+                obligations, discharged, details, problems2 = C.audit(pid)
+                problems += problems2
                 hits = C.source_grep(P.LEAN_TARGETS)
                 if hits:
                     problems += ["forbidden token: " + h for h in hits]
